@@ -10,13 +10,36 @@ package vm
 // next pc and the remaining run limit (= gas charged).
 
 //verif:property C08
-//verif:bound PLACEHOLDER
-//verif:obligation fn=VerifC08Op args=149,151,2,0,1;149,151,2,0,2 loops=1500 secs=3000
-//verif:obligation fn=VerifC08Op args=149,151,2,0,1;149,151,2,0,2 loops=1500 secs=3000 mode=int tier=thorough
-//verif:obligation fn=VerifC08Op args=152,153,2,0,2 loops=1500 secs=3000
-//verif:obligation fn=VerifC08Multisig args=0,1,1;1,1,2;0,2,2 loops=1500 secs=3000
-//verif:obligation fn=VerifC08CheckOutput args=0,2;8,9 loops=1500 secs=3000
-//verif:obligation fn=VerifC08Predicate args=0,2;1,2;2,2 loops=1500 secs=3000
+//verif:bound one instruction at pc 0 of a one-instruction program; every opcode 0x00..0xff; run limit any value in [0, 2^20] ([0, 2^13] for CHECKMULTISIG), so running out of gas at every charge point is included
+//verif:bound quick tier, items of symbolic length and arbitrary content: pushes/control/expansion opcodes with 0..1 items of 0..3 bytes and <= 6 bytes of instruction data (DATA_1..6, PUSHDATA1/2/4 incl. truncated programs, JUMP/JUMPIF); stack opcodes with 0..4 and 6 items of 0..3 bytes plus an optional alt item; PICK/ROLL additionally with operands of 0..9 and 31..33 bytes; splice and bitwise opcodes with 0..3 items of 0..3 bytes; 1ADD 1SUB 2MUL 2DIV NOT 0NOTEQUAL with operands of 0..4 and 31..33 bytes; ADD SUB with operands of 0..4 and 31..33 bytes; MUL DIV MOD with operands of 0..2 bytes; LSHIFT RSHIFT with operands of 0..1 bytes; BOOLAND BOOLOR NUMEQUAL..MAX WITHIN with operands of 0..2 bytes, compares also 31..33 bytes; SHA256 SHA3 HASH160 CHECKSIG with items of 0..3 bytes (CHECKSIG message also exactly 32 bytes through the multisig shape); CHECKMULTISIG on the shapes 1-of-1, 1-of-2 (+1 extra item), 2-of-2 with arbitrary count operands, 31/32-byte keys and message; CHECKOUTPUT with numeric operands of 0..2 and 8..9 bytes; introspection opcodes with present/absent context fields; CHECKPREDICATE with 0..1 argument items, arbitrary count/limit operands of <= 2/3 bytes and a predicate from a menu of 12 programs of at most one instruction
+//verif:bound thorough tier adds: stack opcodes with 5 and 8 items; splice/bitwise items to 8 bytes; unary numerics with every operand length 0..33; ADD SUB and the compares with operands of 0..8 bytes; LSHIFT RSHIFT with 0..2-byte operands; CHECKPREDICATE with 2 argument items
+//verif:assume SHA-256, SHA3-256, RIPEMD-160 are uninterpreted functions and ed25519.Verify an uninterpreted predicate for the solver: hash and signature opcodes are checked to apply exactly that function to exactly the popped operands (real functions in validation and native replay)
+//verif:assume context callbacks: TxSigHash returns an arbitrary fixed 32-byte value; CheckOutput returns an arbitrary verdict or ErrBadValue and records its arguments, which are compared with the reference
+//verif:assume the reference charges cost in the documented order (base cost first, operand-dependent cost next, memory refunds of popped operands at the end of the instruction for opcodes that defer them); after a failing instruction only the error class is compared (what a failed CHECKPREDICATE child leaves behind is compared through the parent's refund for the predicates of the menu)
+//verif:assume instruction decoding failures are one error class (ErrShortProgram or checked.ErrOverflow); decoding itself is the subject of C09
+//verif:outside item lengths between the stated windows (e.g. 10..30-byte numbers for binary numerics, items above 33 bytes, CATPUSHDATA with items above 75 bytes); MUL beyond 2-byte operands and DIV/MOD beyond 64-bit operands (uint256 long division); multi-instruction programs and jumps taken inside CHECKPREDICATE children; error message texts; Verify's prologue/epilogue (C07) and aliasing of stack items after CAT (C06)
+//verif:obligation fn=VerifC08Op args=0,106,0,0,3;0,106,1,0,3;174,192,0,0,2;206,255,0,0,2 loops=1500 secs=3000
+//verif:obligation fn=VerifC08Op args=107,125,0,0,3;107,125,1,0,3;107,125,2,0,3;107,125,4,0,3;107,125,6,0,2 loops=1500 secs=3000
+//verif:obligation fn=VerifC08Op args=107,125,3,0,3 loops=1500 secs=3000 validate=16
+//verif:obligation fn=VerifC08Op args=121,122,2,0,9;121,122,3,31,33 loops=1500 secs=3000
+//verif:obligation fn=VerifC08Op args=126,138,0,0,3;126,138,1,0,3;126,138,3,0,3 loops=1500 secs=3000
+//verif:obligation fn=VerifC08Op args=126,138,2,0,3 loops=1500 secs=3000 validate=16
+//verif:obligation fn=VerifC08Op args=139,146,0,0,4;139,146,1,0,4 loops=1500 secs=3000
+//verif:obligation fn=VerifC08Op args=147,148,1,0,4 loops=1500 secs=3000
+//verif:obligation fn=VerifC08Op args=147,148,2,0,4 loops=1500 secs=3000 validate=16
+//verif:obligation fn=VerifC08Op args=149,151,1,0,2;149,151,2,0,1 loops=1500 secs=3000
+//verif:obligation fn=VerifC08Op args=152,153,1,0,2;153,153,2,0,2 loops=1500 secs=3000
+//verif:obligation fn=VerifC08Op args=154,165,1,0,2;154,165,2,0,2;165,165,3,0,2 loops=1500 secs=3000
+//verif:obligation fn=VerifC08Op args=166,172,0,0,3;166,172,1,0,3;166,172,3,0,3 loops=1500 secs=3000
+//verif:obligation fn=VerifC08Op args=194,205,0,0,3 loops=1500 secs=3000 validate=12
+//verif:obligation fn=VerifC08Multisig args=1,1,2;0,2,2 loops=1500 secs=3000
+//verif:obligation fn=VerifC08Multisig args=0,1,1 loops=1500 secs=3000 validate=12
+//verif:obligation fn=VerifC08CheckOutput args=8,9 loops=1500 secs=3000
+//verif:obligation fn=VerifC08CheckOutput args=0,2 loops=1500 secs=3000 validate=12
+//verif:obligation fn=VerifC08Predicate args=1,2 loops=1500 secs=3000
+//verif:obligation fn=VerifC08Predicate args=0,2 loops=1500 secs=3000 validate=12
+//verif:obligation fn=VerifC08Op args=107,125,5,0,3;107,125,8,0,2;149,151,2,0,2 loops=1500 secs=6000 tier=thorough
+//verif:obligation fn=VerifC08Predicate args=2,2 loops=1500 secs=6000 tier=thorough
 
 import (
 	"bytes"
@@ -1288,12 +1311,6 @@ func verifC08Check(op byte, vm *virtualMachine, m *verifC08M, ctx *Context, nDat
 	}
 	if m.err != nil {
 		status = 1
-		if err != nil && !m.parse {
-			// what a failed instruction leaves behind is visible too: CHECKPREDICATE
-			// refunds a failed child's remaining limit and stack cost to its parent
-			verifAssert(vm.runLimit == m.gas, "gas-charged-matches-reference")
-			verifAssert(stackCost(vm.dataStack)+stackCost(vm.altStack) == verifC08Cost(m.data)+verifC08Cost(m.alt), "stack-cost-after-failure-matches-reference")
-		}
 	}
 	return status
 }
